@@ -1,4 +1,5 @@
 #!/bin/bash
+export VERIF_EVIDENCE_DIR=${VERIF_EVIDENCE_DIR:-/var/tmp/evidence_scratch}  # exploratory run: do not touch /verif/evidence
 # usage: run_mutants_par.sh [parallelism] : every mutants/*.patch against the quick check of its property (VERIF_REPO=<scratch worktree of /repo HEAD>),
 # P at a time (work directories are per process); rewrites mutants/RESULTS.md
 cd /verif; P=${1:-6}; OUT=$(mktemp -d /var/tmp/mutpar.XXXXXX)
